@@ -112,6 +112,13 @@ def build_source(src, scratch, name='src.sgy'):
         out.update(ntraces=nT, hdr_classes=cls)
     else:
         raise ValueError(geom)
+    tsc = src.get('trace_sample_count')
+    if tsc:
+        # the trace-header sample-count word is redundant with the binary header's (which is what readers use): it may be stale or vary
+        with segyio.open(path, 'r+', strict=False, ignore_geometry=True) as f:
+            for t in range(f.tracecount):
+                h = f.header[t]
+                h[115] = 1501 if tsc == 'stale' else (1000 + 7 * t) % 32000 + 1
     ih = src.get('interval_hdr')
     if ih:
         # the sample interval is recorded twice in a SEG-Y (binary header, every trace header); they may disagree or be absent in one place
